@@ -266,6 +266,43 @@ def join_matrix(ctx):
                     rep.fail('%s:join-matrix:%s:%s' % (sig, agg, typ), case, detail)
 
 
+def computed_matrix(ctx):
+    """add_computed_field with an inferred (string) target: every operation x source-type combination, in both
+    schema orders, over rows whose results are not integral"""
+    rep = ctx.report
+    from dataflows.base.schema_validator import ValidationError
+    from tableschema.exceptions import TableSchemaException
+    vals = {'integer': [3, -2, 7], 'number': [1.5, 0.25, -3.75], 'string': ['x', '', 'y z']}
+    for ta in vals:
+        for tb in vals:
+            for op in ('sum', 'avg', 'max', 'min', 'multiply', 'join', 'format', 'constant'):
+                if op in ('sum', 'avg', 'max', 'min', 'multiply') and 'string' in (ta, tb):
+                    continue   # arithmetic over strings is not a well-typed use
+                for srcs in (['a', 'b'], ['b', 'a'], ['a'], ['b']):
+                    if op == 'constant':
+                        srcs = []     # a constant has no sources (their types would be inherited)
+                    case = {'computed-matrix': {'a': ta, 'b': tb, 'operation': op, 'source': srcs}}
+                    rows = [{'a': x, 'b': y} for x, y in zip(vals[ta], vals[tb])]
+                    kw = {'sum': {}, 'avg': {}, 'max': {}, 'min': {}, 'multiply': {}, 'join': {'with': '-'},
+                          'format': {'with': '{a}/{b}'}, 'constant': {'with': 'k'}}[op]
+                    spec = [dict(target='out', operation=op, source=list(srcs), **kw)]
+                    try:
+                        with quiet():
+                            res, dp, _ = Flow(rows, DF.set_type('a', type=ta), DF.set_type('b', type=tb),
+                                              DF.add_computed_field(spec)).results()
+                    except Exception as e:  # noqa
+                        cause = getattr(e, 'cause', e)
+                        if isinstance(cause, (ValidationError, TableSchemaException)):
+                            rep.case('computed-matrix', case, nontrivial=False)
+                            rep.fail('computed-matrix-fails:%s:%s' % (op, type(cause).__name__), case, repr(e)[:300])
+                        else:
+                            rep.hist('computed_matrix_rejected', '%s:%s:%s' % (op, ta, tb))
+                        continue
+                    rep.case('computed-matrix', case)
+                    for sig, detail in check_result(res, dp):
+                        rep.fail('%s:computed-matrix:%s' % (sig, op), case, detail)
+
+
 def probe(finding):
     if finding['signature'].startswith('row-has-undeclared-field:after:join'):
         with quiet():
@@ -288,6 +325,7 @@ def run(ctx):
     for idx in range(ctx.n(120, 2000)):
         pipeline_case(ctx, rng, idx)
     join_matrix(ctx)
+    computed_matrix(ctx)
     # the model side of the same steps
     P.run_cases(ctx, LAYER_A, None, ctx.n(400, 5000), salt='corr')
 
